@@ -123,7 +123,7 @@ class PFindings:
 
 class PSpec:
     def __init__(self, prop, clauses, profiles, backends=ALL_BACKENDS, events=None, seq_mode="singletons",
-                 support=None, nontrivial="rows", level="model_checking", cap=None, math=False):
+                 support=None, nontrivial="rows", level="model_checking", cap=None, math=False, stratify=None):
         self.prop = prop
         self.clauses = set(clauses)
         self.profiles = profiles          # tier -> list of (cfg, simulate or None)
@@ -135,6 +135,7 @@ class PSpec:
         self.level = level
         self.cap = cap or {"quick": 1200, "thorough": 20000}
         self.math = math
+        self.stratify = stratify
 
 
 def make_sequences(mode, nev, rnd):
@@ -176,7 +177,21 @@ def build_cases(spec, tier, uni, rnd):
     total = len(uniq)
     cap = spec.cap[tier]
     exhaustive = True
-    if total > cap:
+    if total > cap and spec.stratify:
+        # equal share per stratum (e.g. per math function), smallest terms first inside each
+        groups = {}
+        for t in uniq:
+            groups.setdefault(spec.stratify(t["q"]), []).append(t)
+        per = max(1, cap // len(groups))
+        picked = []
+        for k in sorted(groups):
+            g = sorted(groups[k], key=lambda t: len(render.compact(t["q"])))
+            head = g[:(per + 1) // 2]
+            rest = g[(per + 1) // 2:]
+            picked += head + (rnd.sample(rest, min(len(rest), per - len(head))) if rest else [])
+        uniq = picked
+        exhaustive = False
+    elif total > cap:
         # the smallest terms first (they are the cores every larger failure reduces to), the rest sampled
         uniq.sort(key=lambda t: len(render.compact(t["q"])))
         head = uniq[:cap // 2]
